@@ -121,7 +121,7 @@ class Ctx:
             m, sp, tag = parts
             im_c = canon(impl_post(im) if impl_post else im)
             im_extra = None
-            if spec_mode == "prog" and "\t" in im:
+            if spec_mode in ("prog", "native") and "\t" in im:
                 im_c, im_extra = [x.strip() for x in im.split("\t", 1)]
             self.tags[name + ":" + tag] += 1
             if nontrivial(tag):
@@ -140,6 +140,11 @@ class Ctx:
                 if im_c != sp:
                     st["oracle_fail"] += 1
                     self.failures.append(Failure("oracle", name, ln, im, m, sp))
+            elif spec_mode == "native":
+                # C07: the crate's bits must equal the host's native result (NaN payloads aside)
+                if im_extra is None or im_extra != im_c:
+                    st["oracle_fail"] += 1
+                    self.failures.append(Failure("oracle", name, ln, im, m, im_extra or "-", "differs from the native IEEE-754 operation"))
             elif spec_mode == "prog":
                 # direct oracle: the harness' own canonical-form predicate on every value the crate returned
                 if im_extra is None or set(im_extra.split()) - {"1"}:
